@@ -1116,6 +1116,10 @@ class TorConfig:
 
             rn = self._find_real_name(name)
             self.parsers[rn] = inst
+            if rn != name and name in defaults:
+                # set locally under another spelling before we were
+                # attached; defaults are listed under Tor's spelling
+                defaults[rn] = defaults[name]
             if is_list_config_type(inst.__class__):
                 self.list_parsers.add(rn)
                 parsed = self.parsers[rn].parse(v)
